@@ -78,7 +78,11 @@ class Spec:
         i = seed % 1000003
         if i < len(kf):
             return dict(kf[i], seed=seed, rand_seed=kf[i].get('rand_seed', 12345), tape=[])
-        return self.make_case(seed, tier)
+        case = self.make_case(seed, tier)
+        if tier != 'quick' and 'crash' not in case:
+            # thorough programs (m up to 7, several heavy operations) legitimately need more loop iterations
+            case.setdefault('opts', {}).setdefault('step_cap', 2000000)
+        return case
 
     def execute(self, case):
         from .runner import run_case
